@@ -323,8 +323,12 @@ func TestWorker(t *testing.T) {
 					}
 				}
 				rf := ReplayFile{Version: 1, Prop: job.Prop, Oracle: v.Oracle, Finger: v.Finger, Detail: f.Detail, Hash: f.Hash, Case: mc}
-				os.MkdirAll(filepath.Join(verifDir, "replays"), 0o755)
-				f.Replay = filepath.Join(verifDir, "replays", fmt.Sprintf("%s-%d-%s.json", job.Prop, seed, sanitize(v.Finger)))
+				rdir := filepath.Join(verifDir, "replays")
+				if d := os.Getenv("VERIF_REPLAY_DIR"); d != "" {
+					rdir = d // runs against scratch trees keep their replay files apart
+				}
+				os.MkdirAll(rdir, 0o755)
+				f.Replay = filepath.Join(rdir, fmt.Sprintf("%s-%d-%s.json", job.Prop, seed, sanitize(v.Finger)))
 				b, _ := json.MarshalIndent(rf, "", " ")
 				os.WriteFile(f.Replay, b, 0o644)
 				wo.Findings = append(wo.Findings, f)
